@@ -439,12 +439,19 @@ class ExprMixin:
                 return a.isnone
             if isinstance(a, VSeq) and a.nullable:
                 return a.n == -1
+            if isinstance(a, VOpaque) and a.py is None and a.tag == 'opaque':
+                return self.fresh_bool('isnone')     # an unknown object (opaque parameter) may be None
             return False
         if isinstance(a, VRef) and isinstance(b, VRef):
             return a.z == b.z
         if isinstance(a, VBool) and isinstance(b, VBool):
             return a.z == b.z
         if isinstance(a, VOpaque) and isinstance(b, VOpaque):
+            if (a.py is None and a.tag != 'const') or (b.py is None and b.tag != 'const'):
+                # at least one side is an UNKNOWN object (result of type(x), an opaque parameter, a dropped object): whether it
+                # is the other object is unspecified - both outcomes are explored (deciding "False" here pruned the branch
+                # `if type(obj) is dict:` and hid a seeded change; see DESIGN section 9)
+                return self.fresh_bool('is')
             return a.py == b.py and a.tag == b.tag
         if isinstance(a, VCallable) and isinstance(b, VCallable):
             return a.kind == b.kind and a.__dict__ == b.__dict__
@@ -455,6 +462,8 @@ class ExprMixin:
             r = self.fresh_bool('is')
             self.assume(z3.Implies(r, self.veq(a, b, node_eq=False)))
             return r
+        if (isinstance(a, VOpaque) and a.py is None and a.tag != 'const') or (isinstance(b, VOpaque) and b.py is None and b.tag != 'const'):
+            return self.fresh_bool('is')        # an unknown object may be any object
         if type(a) is not type(b):
             return False
         raise Unsupported(f"identity of {a!r} and {b!r}")
@@ -497,6 +506,8 @@ class ExprMixin:
                 raise Unsupported("`in` on object in spec mode")
             r = self.call_method(container, '__contains__', [item], {}, fr, node)
             return zbool(self.truth(r, fr))
+        if isinstance(container, VOpaque) and container.py is None and container.tag in ('opaque', 'dropped') and not fr.spec:
+            return self.fresh_bool('in')        # membership in an unknown object: unspecified, both outcomes explored
         raise Unsupported(f"`in` on {container!r}")
 
     # ------------------------------------------------------------------------------------------- containers
